@@ -409,8 +409,8 @@ def make_replay(prop, unit, chk, res, violation, rep, scratch):
             confirmed = True  # the real code crashed on the verifier's input
         note = 'native replay: ' + status
     else:
-        doc['native_replay'] = {'status': 'no-trace-inputs', 'output': ''}
-        note = 'no counterexample inputs'
+        doc['native_replay'] = {'status': 'not-attempted', 'output': 'this unit has no native twin (replay: false) or the trace carried no ghost inputs'}
+        note = 'counterexample recorded, no native twin for this unit'
     doc['confirmed_on_real_code'] = confirmed
     json.dump(doc, open(path, 'w'), indent=1)
     return path, confirmed, note
